@@ -463,8 +463,14 @@ func (c *Checked) checkLogRules(i int, op Op, res *OpResult, evs []Event) {
 			}
 		}
 	}
+	// If the retry fails for a reason of its own (another fault fires first, a
+	// dependency is missing on the only remaining path to the failed function)
+	// resolution need not reach the failed function: the claim is made when the
+	// retry succeeds although the failed function lies in what a successful
+	// Invoke must have executed.
 	if c.prevFail >= 0 && c.prevFailOp == i-1 && c.sameInvoke(i-1, i) &&
-		c.curClosure != nil && c.curClosure.Fns[c.prevFail] && !c.curClosure.Loop {
+		c.curClosure != nil && c.curClosure.Fns[c.prevFail] && !c.curClosure.Loop &&
+		res.Verdict == VOK && c.M.MustClosure(Consumer{Scope: op.Scope, Fn: -1}, inv.LeafParams()).Fns[c.prevFail] {
 		c.probe("retry_after_failure")
 		if !enteredHere[c.prevFail] {
 			role := c.H.Funcs[c.prevFail].Role
